@@ -6,6 +6,7 @@ generated case by the correspondence harness (and is property C02).
 -/
 import VaxisModel.Model.TermKey
 import VaxisModel.Model.TermMouse
+import VaxisModel.Model.TermInputModes
 import VaxisModel.Spec.TermInput
 import VaxisModel.Lemmas.TermInput
 
@@ -265,6 +266,39 @@ theorem altscroll_cursor_mode (u : Uni) (md : Modes) (m : Mouse) (h : altScrollA
   rcases hw with hw | hw <;> cases ckm <;>
     simp [update, handleMouse, hw, cursorSeq, renderSeq, renderCSI, renderParams,
       VaxisModel.Gen.Mouse.MouseWheelUp, VaxisModel.Gen.Mouse.MouseWheelDown]
+
+/-! ## The modes are the ones the child selected -/
+
+open VaxisModel.Model.TermInputModes in
+/-- **child_modes_conform.** From every one of the 512 mode states, each thing the child can write —
+    DECSET / DECRST of each relevant private mode number (and of numbers that must not matter),
+    `ESC =`, `ESC >` and `ESC c` (RIS) — moves the emulator (the case tables of `decset` / `decrst`, the
+    `esc` arms and the mode assignments of `ris()`, regenerated from the source) to exactly the state
+    the standard meaning gives; in particular RIS returns every input mode to its power-on value. -/
+theorem child_modes_conform :
+    ((List.range 512).all fun n =>
+      let md := modesOfNat n
+      (modeNumbers.all fun k =>
+        applyChild md (.set [k]) == specApply md (.set [k]) && applyChild md (.reset [k]) == specApply md (.reset [k])) &&
+      applyChild md .pam == specApply md .pam && applyChild md .pnm == specApply md .pnm &&
+      applyChild md .ris == specApply md .ris) = true := by
+  decide +kernel
+
+open VaxisModel.Model.TermInputModes in
+/-- Lists of parameters (`CSI ? 1002 ; 1006 h`) and whole scripts are folds of the single steps, in the
+    model and in the spec alike; so conformance of the steps extends to every script from the power-on
+    state whose mode numbers are in `modeNumbers`. -/
+theorem child_scripts_conform (ops : List ChildOp)
+    (h : ∀ md op, op ∈ ops → applyChild md op = specApply md op) :
+    childModes ops = specModes ops := by
+  unfold childModes specModes
+  generalize ({} : Modes) = md0
+  induction ops generalizing md0 with
+  | nil => rfl
+  | cons op rest ih =>
+    simp only [List.foldl_cons]
+    rw [h md0 op (by simp)]
+    exact ih (fun md o ho => h md o (by simp [ho])) _
 
 /-! ## Paste -/
 
